@@ -38,6 +38,8 @@ CHECKS = {
  "C17": ("real proj_B_to_hull with a quadprog contract stub (result in hull, nearest by an explicit competitor instance, interior points fixed), alpha_for_B_with_P / B_with_P on symbolic "
          "facets (positive multiple on the boundary, all facet inequalities, nan only when no facet is hit), line_to_simplex, all-pairs slice on symbolic clouds (on the plane, on a "
          "segment of the cloud); hull-edge branch and exactness of the slice by z3 linear arithmetic on sampled concrete clouds in 2-5 dimensions with the real qhull", "4 C17"),
+ "C12": ("PARTIAL: intensity (L1) scaling decided on fully symbolic systems (light-induced part multiplied by one positive factor amax/bmax, largest capture = smallest single-source "
+         "maximum, ratios unchanged, relative and absolute capture, caller array untouched); the chromatic (distance) scaling half is NOT decided (only its caller-array clause, in C14)", "4 C12"),
  "C05": ("exhaustive grid of (n_samples, batch_size) incl. non-dividing, larger-than-n and 'full' for the gaussian, poisson and excitation models: the real batching code "
          "(padding, block-diagonal stacking, scatter) runs on symbolic contents through the cvxpy shim; z3 decides per row: no exception, the result row is its own block of the "
          "stacked solution, it is optimal for its own target/weights alone (separability instance of the stacked contract), and the stacked problem is feasible whenever each row's is", "4 C05"),
